@@ -157,6 +157,8 @@ pub struct WorldOpts {
     pub own_area: bool,
     /// fast, accelerating objects (estimate lags the observation; constraint rows bind)
     pub fast: bool,
+    /// more batches whose results are read late by another thread (pipelined use)
+    pub late_bias: bool,
 }
 
 struct Obj {
@@ -535,9 +537,10 @@ pub fn gen_tracker_case(seed: u64, o: &WorldOpts) -> TrackerCase {
                 }
             }
             if !scenes.is_empty() {
-                let consumer = match r.below(6) {
-                    0 | 1 | 2 => Consumer::Same,
-                    3 => Consumer::Other,
+                // pipelining-heavy worlds read half of their batches late, on another thread
+                let consumer = match (r.below(6), o.late_bias) {
+                    (0 | 1, _) | (2, false) => Consumer::Same,
+                    (2, true) | (3, false) => Consumer::Other,
                     _ => Consumer::OtherLate,
                 };
                 ops.push(TOp::Batch { scenes, consumer });
